@@ -47,18 +47,46 @@ def _collapse_invariants(
             invariants.extend(getattr(base, invariants_dunder))
 
     # Add invariants in the current namespace
+    #
+    # The namespace of a class which is re-created from the dictionary of an existing class (*e.g.*, by a class
+    # decorator such as ``dataclasses.dataclass(slots=True)``) lists the invariants of the bases already.
     if invariants_dunder in namespace:
-        invariants.extend(namespace[invariants_dunder])
+        invariants.extend(
+            invariant
+            for invariant in namespace[invariants_dunder]
+            if not _is_among(invariant, invariants)
+        )
 
     # Change the final invariants in the namespace
     #
     # The list has to be set in the namespace even if it is empty as soon as one of the bases defines it.
     # Otherwise the class would share the (empty) list object with the base through the inheritance, and
     # the invariants added later to the class (with a decorator) would be appended to the list of the base.
-    if invariants or any(hasattr(base, invariants_dunder) for base in bases):
+    #
+    # Likewise, a list which is already in the namespace (of a class re-created from the dictionary of an existing
+    # class) has to be replaced, otherwise the two classes would share it.
+    if (
+        invariants
+        or invariants_dunder in namespace
+        or any(hasattr(base, invariants_dunder) for base in bases)
+    ):
         namespace[invariants_dunder] = invariants
 
     # endregion
+
+
+def _is_among(item: Any, items: List[Any]) -> bool:
+    """Check whether the very object ``item`` (and not merely an equal one) is listed in ``items``."""
+    return any(item is another for another in items)
+
+
+def _is_group_among(group: List[Contract], groups: List[List[Contract]]) -> bool:
+    """Check whether one of the ``groups`` lists exactly the contracts of the ``group`` (the very same objects)."""
+    return any(
+        len(group) == len(another)
+        and all(contract is other for contract, other in zip(group, another))
+        for another in groups
+    )
 
 
 def _provides(base: type, key: str) -> bool:
@@ -100,7 +128,15 @@ def _collapse_preconditions(
     # the collapsed preconditions of this function, otherwise a precondition added later to this function
     # (*e.g.*, by decorating the method of the sub-class after the class has been created) would be appended
     # to the group of the base class and thus silently strengthen the precondition of the base.
-    return [list(group) for group in base_preconditions] + preconditions
+    #
+    # The contracts of a function which have been collapsed once already (*e.g.*, when a class decorator such as
+    # ``dataclasses.dataclass(slots=True)`` re-creates the class from the dictionary of the decorated class) include
+    # the contracts of the bases; they must not be inherited a second time.
+    return [list(group) for group in base_preconditions] + [
+        group
+        for group in preconditions
+        if not _is_group_among(group, base_preconditions)
+    ]
 
 
 def _collapse_snapshots(
@@ -114,7 +150,9 @@ def _collapse_snapshots(
     :return: collapsed sequence of snapshots
     """
     seen_names = set()  # type: Set[str]
-    collapsed = base_snapshots + snapshots
+    collapsed = base_snapshots + [
+        snap for snap in snapshots if not _is_among(snap, base_snapshots)
+    ]
 
     for snap in collapsed:
         if snap.name in seen_names:
@@ -141,7 +179,11 @@ def _collapse_postconditions(
     :param postconditions: postconditions of the function (before the collapse)
     :return: collapsed sequence of postconditions
     """
-    return base_postconditions + postconditions
+    return base_postconditions + [
+        contract
+        for contract in postconditions
+        if not _is_among(contract, base_postconditions)
+    ]
 
 
 def _decorate_namespace_function(
